@@ -533,7 +533,7 @@ class ParallelSpecFinder(Generic[ClassType1, ObjType1, ClassType2, ObjType2]):
     @staticmethod
     def _create_spec(d: SpecMap, pi: ParallelInfo) -> CombinatorialSpecification:
         rules = SpecificationRuleExtractor(
-            pi.root_eq_label,
+            pi.searcher.start_label,
             ParallelSpecFinder._create_tree(d, pi.root_eq_label),
             pi.ruledb,
             pi.searcher.classdb,
